@@ -235,7 +235,7 @@ def patch_op_replay(clsname):
         value = real(inputs.get("value"))
         if not isinstance(data, (list, dict)):
             return None
-        specname = {"OpAdd": "op_add", "OpRemove": "op_remove", "OpReplace": "op_replace", "OpTest": "op_test"}[clsname]
+        specname = {"OpAdd": "op_add", "OpRemove": "op_remove", "OpReplace": "op_replace", "OpTest": "op_test", "OpAddNe": "op_addne", "OpAddAp": "op_addap"}[clsname]
 
         def run(fn, *a):
             d = copy.deepcopy(data)
@@ -253,6 +253,37 @@ def patch_op_replay(clsname):
         want = run(getattr(jspec, specname), *args)
         if got != want:
             return f"{clsname}(path parts={parts!r}{', value=%r' % (value,) if args else ''}).apply({data!r}) {got[0]} {got[1]!r} but RFC 6902 {want[0]} {want[1]!r}"
+        return None
+
+    return replay
+
+
+def patch_move_copy_replay(clsname):
+    def replay(inputs):
+        import copy
+
+        import specs.rfc6902 as jspec
+
+        pm = importlib.import_module("jsonpath.patch")
+        ptr = importlib.import_module("jsonpath.pointer")
+        data = real(inputs["data"])
+        if not isinstance(data, (list, dict)):
+            return None
+        src, dst = tuple(real(inputs["src_parts"])), tuple(real(inputs["dst_parts"]))
+
+        def run(fn):
+            d = copy.deepcopy(data)
+            try:
+                return ("returns", fn(ptr.JSONPointer("", parts=src, unicode_escape=False), ptr.JSONPointer("", parts=dst, unicode_escape=False), d))
+            except Exception as e:  # noqa: BLE001
+                fam = "JSONPatchError" if isinstance(e, pm.JSONPatchError) else ("JSONPointerError" if isinstance(e, ptr.JSONPointerError) else type(e).__name__)
+                return ("raises", fam)
+
+        cls = getattr(pm, clsname)
+        got = run(lambda s, t, d: cls(s, t).apply(d))
+        want = run(jspec.op_move if clsname == "OpMove" else jspec.op_copy)
+        if got != want:
+            return f"{clsname}(from parts={src!r}, path parts={dst!r}).apply({data!r}) {got[0]} {got[1]!r} but RFC 6902 {want[0]} {want[1]!r}"
         return None
 
     return replay
